@@ -2,6 +2,7 @@
 // data. Same case file and output format as ocaml/tensor_driver.ml.
 #include <primitiv/primitiv.h>
 #include <cmath>
+#include <cstring>
 #include <cstdlib>
 #include <limits>
 #include <memory>
@@ -45,12 +46,28 @@ static std::string prv(const V &v) {
 }
 static std::string out(const Tensor &t) { return "ok " + prs(t.shape()) + " " + prv(t.to_vector()); }
 static std::string out2(const Tensor &a, const Tensor &b) { return "ok2 " + prv(a.to_vector()) + "|" + prv(b.to_vector()); }
+struct Mutated {};
+// C10: a rejected backward / in-place call must leave its accumulator operands bit-identical
+template <class F>
+static std::string guarded(std::initializer_list<Tensor *> outs, F f) {
+  std::vector<V> snap; for (Tensor *o : outs) snap.push_back(o->to_vector());
+  try { return f(); }
+  catch (Error &) {
+    size_t k = 0;
+    for (Tensor *o : outs) {
+      V now = o->to_vector();
+      if (now.size() != snap[k].size() || std::memcmp(now.data(), snap[k].data(), now.size() * sizeof(float)) != 0) throw Mutated();
+      ++k;
+    }
+    throw;
+  }
+}
 static std::string eval(const std::vector<std::string> &t) {
   const std::string &f = t.at(0);
   if (f == "slice_fw") { Shape sx = sh(t[1]); return out(dev->slice_fw(T(sx, ident(0, sx.size())), u32(t[2]), u32(t[3]), u32(t[4]))); }
-  if (f == "slice_bw") { Shape sy = sh(t[1]), sx = sh(t[2]); Tensor gx = T(sx, g0(sx.size())); dev->slice_bw(T(sy, gyid(sy.size())), u32(t[3]), u32(t[4]), gx); return out(gx); }
+  if (f == "slice_bw") { Shape sy = sh(t[1]), sx = sh(t[2]); Tensor gx = T(sx, g0(sx.size())); return guarded({&gx}, [&]() { dev->slice_bw(T(sy, gyid(sy.size())), u32(t[3]), u32(t[4]), gx); return out(gx); }); }
   if (f == "pick_fw") { Shape sx = sh(t[1]); return out(dev->pick_fw(T(sx, ident(0, sx.size())), u32list(t[2]), u32(t[3]))); }
-  if (f == "pick_bw") { Shape sy = sh(t[1]), sx = sh(t[2]); Tensor gx = T(sx, g0(sx.size())); dev->pick_bw(T(sy, gyid(sy.size())), u32list(t[3]), u32(t[4]), gx); return out(gx); }
+  if (f == "pick_bw") { Shape sy = sh(t[1]), sx = sh(t[2]); Tensor gx = T(sx, g0(sx.size())); return guarded({&gx}, [&]() { dev->pick_bw(T(sy, gyid(sy.size())), u32list(t[3]), u32(t[4]), gx); return out(gx); }); }
   if (f == "concat_fw") {
     auto ss = shs(t[1]); std::vector<Tensor> xs; int k = 0;
     for (auto &s : ss) xs.push_back(T(s, ident(k++, s.size())));
@@ -59,21 +76,21 @@ static std::string eval(const std::vector<std::string> &t) {
   }
   if (f == "broadcast_fw") { Shape sx = sh(t[1]); return out(dev->broadcast_fw(T(sx, ident(0, sx.size())), u32(t[2]), u32(t[3]))); }
   if (f == "flip_fw") { Shape sx = sh(t[1]); return out(dev->flip_fw(T(sx, ident(0, sx.size())), u32(t[2]))); }
-  if (f == "flip_bw") { Shape sx = sh(t[1]); Tensor gx = T(sx, g0(sx.size())); dev->flip_bw(T(sx, gyid(sx.size())), u32(t[2]), gx); return out(gx); }
+  if (f == "flip_bw") { Shape sx = sh(t[1]); Tensor gx = T(sx, g0(sx.size())); return guarded({&gx}, [&]() { dev->flip_bw(T(sx, gyid(sx.size())), u32(t[2]), gx); return out(gx); }); }
   if (f == "transpose_fw") { Shape sx = sh(t[1]); return out(dev->transpose_fw(T(sx, ident(0, sx.size())))); }
   if (f == "transpose_bw") {
     Shape sx = sh(t[1]); Tensor x = T(sx, ident(0, sx.size())); Tensor y = dev->transpose_fw(x);
-    Tensor gx = T(sx, g0(sx.size())); dev->transpose_bw(x, y, T(y.shape(), gyid(y.shape().size())), gx); return out(gx);
+    Tensor gx = T(sx, g0(sx.size())); return guarded({&gx}, [&]() { dev->transpose_bw(x, y, T(y.shape(), gyid(y.shape().size())), gx); return out(gx); });
   }
   if (f == "permute_fw") { Shape sx = sh(t[1]); return out(dev->permute_dims_fw(T(sx, ident(0, sx.size())), u32list(t[2]))); }
   if (f == "permute_bw") {
     Shape sx = sh(t[1]); Tensor x = T(sx, ident(0, sx.size())); auto perm = u32list(t[2]); Tensor y = dev->permute_dims_fw(x, perm);
-    Tensor gx = T(sx, g0(sx.size())); dev->permute_dims_bw(x, y, T(y.shape(), gyid(y.shape().size())), perm, gx); return out(gx);
+    Tensor gx = T(sx, g0(sx.size())); return guarded({&gx}, [&]() { dev->permute_dims_bw(x, y, T(y.shape(), gyid(y.shape().size())), perm, gx); return out(gx); });
   }
   if (f == "batch_pick_fw") { Shape sx = sh(t[1]); return out(dev->batch_pick_fw(T(sx, ident(0, sx.size())), u32list(t[2]))); }
-  if (f == "batch_pick_bw") { Shape sy = sh(t[1]), sx = sh(t[2]); Tensor gx = T(sx, g0(sx.size())); dev->batch_pick_bw(T(sy, gyid(sy.size())), u32list(t[3]), gx); return out(gx); }
+  if (f == "batch_pick_bw") { Shape sy = sh(t[1]), sx = sh(t[2]); Tensor gx = T(sx, g0(sx.size())); return guarded({&gx}, [&]() { dev->batch_pick_bw(T(sy, gyid(sy.size())), u32list(t[3]), gx); return out(gx); }); }
   if (f == "batch_slice_fw") { Shape sx = sh(t[1]); return out(dev->batch_slice_fw(T(sx, ident(0, sx.size())), u32(t[2]), u32(t[3]))); }
-  if (f == "batch_slice_bw") { Shape sy = sh(t[1]), sx = sh(t[2]); Tensor gx = T(sx, g0(sx.size())); dev->batch_slice_bw(T(sy, gyid(sy.size())), u32(t[3]), gx); return out(gx); }
+  if (f == "batch_slice_bw") { Shape sy = sh(t[1]), sx = sh(t[2]); Tensor gx = T(sx, g0(sx.size())); return guarded({&gx}, [&]() { dev->batch_slice_bw(T(sy, gyid(sy.size())), u32(t[3]), gx); return out(gx); }); }
   if (f == "batch_concat_fw") {
     auto ss = shs(t[1]); std::vector<Tensor> xs; int k = 0;
     for (auto &s : ss) xs.push_back(T(s, ident(k++, s.size())));
@@ -87,8 +104,7 @@ static std::string eval(const std::vector<std::string> &t) {
     Shape sx = sh(t[1]); Tensor x = T(sx, ties(0, sx.size())); std::uint32_t d = u32(t[2]);
     Tensor y = f == "max_bw" ? dev->max_fw(x, d) : dev->min_fw(x, d);
     Tensor gx = T(sx, g0(sx.size())); Tensor gy = T(y.shape(), gyv(y.shape().size()));
-    if (f == "max_bw") dev->max_bw(x, y, gy, d, gx); else dev->min_bw(x, y, gy, d, gx);
-    return out(gx);
+    return guarded({&gx}, [&]() { if (f == "max_bw") dev->max_bw(x, y, gy, d, gx); else dev->min_bw(x, y, gy, d, gx); return out(gx); });
   }
   if (f == "argmax" || f == "argmin") {
     Shape sx = sh(t[1]); Tensor x = T(sx, ties(0, sx.size()));
@@ -109,20 +125,18 @@ static std::string eval(const std::vector<std::string> &t) {
     Shape sa = sh(t[1]), sb = sh(t[2]); Tensor a = T(sa, arith(0, sa.size())), b = T(sb, arith(1, sb.size()));
     Tensor y = f == "add_bw" ? dev->add_fw(a, b) : f == "sub_bw" ? dev->subtract_fw(a, b) : dev->multiply_fw(a, b);
     Tensor gy = T(y.shape(), gyv(y.shape().size())), ga = T(sa, g0(sa.size())), gb = T(sb, g0(sb.size()));
-    if (f == "add_bw") dev->add_bw(a, b, y, gy, ga, gb); else if (f == "sub_bw") dev->subtract_bw(a, b, y, gy, ga, gb); else dev->multiply_bw(a, b, y, gy, ga, gb);
-    return out2(ga, gb);
+    return guarded({&ga, &gb}, [&]() { if (f == "add_bw") dev->add_bw(a, b, y, gy, ga, gb); else if (f == "sub_bw") dev->subtract_bw(a, b, y, gy, ga, gb); else dev->multiply_bw(a, b, y, gy, ga, gb); return out2(ga, gb); });
   }
   if (f == "inplace_add" || f == "inplace_sub") {
     Shape sx = sh(t[1]), sy = sh(t[2]); Tensor x = T(sx, arith(0, sx.size())), y = T(sy, g0(sy.size()));
-    if (f == "inplace_add") dev->inplace_add(x, y); else dev->inplace_subtract(x, y);
-    return out(y);
+    return guarded({&y}, [&]() { if (f == "inplace_add") dev->inplace_add(x, y); else dev->inplace_subtract(x, y); return out(y); });
   }
   if (f == "matmul_fw") { Shape sa = sh(t[1]), sb = sh(t[2]); return out(dev->matmul_fw(T(sa, arith(0, sa.size())), T(sb, arith(1, sb.size())))); }
   if (f == "matmul_bw") {
     Shape sa = sh(t[1]), sb = sh(t[2]); Tensor a = T(sa, arith(0, sa.size())), b = T(sb, arith(1, sb.size()));
     Tensor y = dev->matmul_fw(a, b);
     Tensor gy = T(y.shape(), gyv(y.shape().size())), ga = T(sa, g0(sa.size())), gb = T(sb, g0(sb.size()));
-    dev->matmul_bw(a, b, y, gy, ga, gb); return out2(ga, gb);
+    return guarded({&ga, &gb}, [&]() { dev->matmul_bw(a, b, y, gy, ga, gb); return out2(ga, gb); });
   }
   if (f == "conv2d_fw" || f == "conv2d_bw") {
     Shape sx = sh(t[1]), sw = sh(t[2]); Tensor x = T(sx, arith(0, sx.size())), w = T(sw, arith(1, sw.size()));
@@ -130,7 +144,7 @@ static std::string eval(const std::vector<std::string> &t) {
     Tensor y = dev->conv2d_fw(x, w, a[0], a[1], a[2], a[3], a[4], a[5]);
     if (f == "conv2d_fw") return out(y);
     Tensor gy = T(y.shape(), gyv(y.shape().size())), gx = T(sx, g0(sx.size())), gw = T(sw, g0(sw.size()));
-    dev->conv2d_bw(x, w, y, gy, a[0], a[1], a[2], a[3], a[4], a[5], gx, gw); return out2(gx, gw);
+    return guarded({&gx, &gw}, [&]() { dev->conv2d_bw(x, w, y, gy, a[0], a[1], a[2], a[3], a[4], a[5], gx, gw); return out2(gx, gw); });
   }
   if (f == "pool_fw" || f == "pool_bw") {
     Shape sx = sh(t[1]); Tensor x = T(sx, ties(0, sx.size()));
@@ -138,7 +152,7 @@ static std::string eval(const std::vector<std::string> &t) {
     Tensor y = dev->max_pool2d_fw(x, a[0], a[1], a[2], a[3], a[4], a[5]);
     if (f == "pool_fw") return out(y);
     Tensor gy = T(y.shape(), gyv(y.shape().size())), gx = T(sx, g0(sx.size()));
-    dev->max_pool2d_bw(x, y, gy, a[0], a[1], a[2], a[3], a[4], a[5], gx); return out(gx);
+    return guarded({&gx}, [&]() { dev->max_pool2d_bw(x, y, gy, a[0], a[1], a[2], a[3], a[4], a[5], gx); return out(gx); });
   }
   return "badcase";
 }
@@ -159,6 +173,7 @@ int main() {
     std::string o;
     try { o = eval(t); }
     catch (Argerr &) { o = "argerr"; }
+    catch (Mutated &) { o = "err-but-operand-mutated"; }
     catch (Error &) { o = "err"; }
     catch (std::exception &e) { o = std::string("other-exception ") + e.what(); }
     if (checked) {
